@@ -22,7 +22,10 @@ went through the log the lock is expired -- not held again without an acquire, g
 (`KeepMonitor`); directed `stall` schedules: the holder stalls > U and resumes prolonging, the competitor's
 tryAcquire stamped in between is committed afterwards -- it must be granted and the old holder must not hold;
 in the directed `stale` schedules the holder that
-prolongs every < U/2 still answers isAcquired after catching up and nobody else was granted; (6) replicas
+prolongs every < U/2 still answers isAcquired after catching up and nobody else was granted; (7) a client told that its
+acquisition failed does not keep the lock -- also when the outcome reported was open (`try_open`: callback(None,
+LEADER_CHANGED) while the command is committed later): no client considers a lock held, with no release of its
+own outstanding, when every one of its tryAcquire calls was answered with a failure (D73); (6) replicas
 also reach a log position through a snapshot -- `install` (a lagging replica receives another replica's
 `_serialize()` -> pickle -> `_deserialize()` into its existing consumer, as SyncObj does) and `restart` (state
 wiped, own dump loaded): the rebuilt replica must hold exactly the donor's locks, and all monitors keep
@@ -43,6 +46,7 @@ SIG_REORDER = "batteries.ReplLockManager:stamp-reorder-mutex"
 SIG_MUTEX = "batteries.ReplLockManager:mutex-broken"
 SIG_MUTEX_STALE = "batteries.ReplLockManager:stale-stamp-mutex"
 SIG_MUTEX_SNAPSHOT = "batteries.ReplLockManager:mutex-broken-after-snapshot"
+SIG_FAILED_KEPT = "batteries.ReplLockManager.tryAcquire:failed-acquire-kept"
 
 
 def delay(rng, U, mode):
@@ -60,6 +64,8 @@ def gen_events(rng, U, ncl, nlk, n, mode):
         l = rng.randrange(1, nlk + 1)
         if r < 0.16:
             evs.append(("adv", rng.choice((0, 1, 1, 1, 2, max(1, U // 4), max(1, U // 2), U, U + 1))))
+        elif r < 0.03 + 0.16:
+            evs.append(("try_open", c, l, 0, rng.choice((0, 1, U // 2 + 1))))
         elif r < 0.34:
             evs.append(("try", c, l) + delay(rng, U, mode))
         elif r < 0.40:
@@ -87,6 +93,7 @@ class World(object):
         self.mute_keep = mute_keep          # second pass: look only at what the clients themselves observe
         self.clock = lc.VClock(10)
         self.log = []                 # (cmd, cb, submitter)
+        self.log_times = []           # clock value at which the entry entered the log
         self.viols = []
         self.cov = {}
         self.maxstamp = {}
@@ -120,6 +127,21 @@ class World(object):
                     c["mgr"].tryAcquire(lc.lock_name(ev[2]), callback=(lambda r, e, rec=rec: self.answered(rec, r, e)))
                     self.sync_due(c, ev[3] if len(ev) > 3 else 0)
                     self.hit("try")
+                elif k == "try_open":
+                    # tryAcquire whose outcome is reported as open -- callback(None, LEADER_CHANGED) -- while the
+                    # command stays in the pipeline and is committed later (no second callback for it)
+                    c = cl[ev[1]]
+                    self.sync_due(c, 0)
+                    rec = {"l": ev[2], "att": clock.now, "ans": None, "n_sub": len(c["so"].submitted)}
+                    c["attempts"].append(rec)
+                    c["mgr"].tryAcquire(lc.lock_name(ev[2]), callback=(lambda r, e, rec=rec: self.answered(rec, r, e)))
+                    self.sync_due(c, ev[3] if len(ev) > 3 else 0)
+                    cmd, cb = c["so"].queue[-1]
+                    c["so"].queue[-1] = (cmd, None)
+                    clock.now += ev[4] if len(ev) > 4 else 0
+                    cb(None, 5)
+                    self.sync_due(c, 0)
+                    self.hit("try.outcome-open")
                 elif k == "rel":
                     c = cl[ev[1]]
                     self.sync_due(c, 0)
@@ -270,6 +292,7 @@ class World(object):
         if kviol is not None and not self.mute_keep:
             self.viols.append(kviol)
         self.log.append((cmd, cb, submitter))
+        self.log_times.append(self.clock.now)
         self.hit("log." + cmd[0])
         if cmd[0] == "acq":
             _, l, c, t = cmd
@@ -304,6 +327,28 @@ class World(object):
                     nsub = sum(1 for x in c["so"].submitted if x[0] == "rel" and x[1] == l)
                     if nsub == c["rel_app"].get(l, 0):          # no release of its own outstanding
                         holders.append(i + 1)
+            for h in holders:
+                att = [a for a in self.cl[h - 1]["attempts"] if a["l"] == l]
+                if att and all(a["ans"] is not None and a["ans"][1] is not True for a in att):
+                    # the literal clause: an acquisition that took longer than U/2 (committed > U/2 after the attempt)
+                    late = [a for a in att if a["ans"][1] is None and any(e[0] == ("acq", l, h, a["att"]) and 2 * (t_app - a["att"]) > self.U
+                                                  for e, t_app in zip(self.log, self.log_times))]
+                    if not late:
+                        self.hit("held.by-client-told-failed.commit-within-U/2")
+                        continue
+                    self.hit("held.by-client-told-failed")
+                    # with the compensating release of fixes/D73 in place the only way left is the release being
+                    # committed BEFORE the acquire it compensates (the acquire overtaken in the pipeline)
+                    cmds = [e[0] for e in self.log]
+                    overtaken = any(("rel", l, h) in cmds[:cmds.index(("acq", l, h, a["att"]))] for a in late
+                                    if ("acq", l, h, a["att"]) in cmds)
+                    self.viols.append({"signature": SIG_FAILED_KEPT + (":compensating-release-overtaken" if overtaken else ""),
+                                       "what": "at time %d client %d considers L%d held (no release of its own outstanding) although every one "
+                                               "of its tryAcquire calls was answered with a failure (attempt time, (answer time, answer)): %s, and "
+                                               "an acquire was committed more than U/2 after its attempt; table %s; log %s"
+                                               % (now, h, l, [(a["att"], a["ans"]) for a in att], lc.table_of(self.cl[h - 1]["impl"]),
+                                                  [lc.cmd_str(e[0]) for e in self.log][-8:])})
+                    return
             if holders:
                 self.hit("held.%d" % min(len(holders), 2))
                 lag = [len(self.log) - self.cl[h - 1]["applied"] for h in holders]
@@ -429,6 +474,24 @@ def stall_case(rng, mode):
     return {"U": U, "ncl": 3, "nlk": 2, "mode": mode, "events": ev}
 
 
+def open_case(rng, mode):
+    """Directed (D73): Y's tryAcquire is reported as failed with an open outcome (LEADER_CHANGED) `told` after
+    the attempt; its acquire is committed `took` after the attempt anyway (with whatever the wrapper submitted
+    behind it); Y lives on and prolongs every U/4; a competitor tries.  Y was told it failed: it must not
+    consider the lock held once its submissions are applied."""
+    U = rng.choice((4, 8, 10, 12))
+    Y, Z, l = 0, 1, 1
+    told = rng.choice((0, 1, U // 2 + 1))
+    took = rng.choice((0, 1, U // 2, U // 2 + 1, U - 1))
+    ev = [("try_open", Y, l, 0, told), ("adv", max(0, took - told))]
+    ev += [("flush", Y, 0), ("flush", Y, 0), ("deliver", Y, 9), ("deliver", Z, 9)]
+    for _ in range(rng.randrange(2, 5)):
+        ev += [("adv", max(1, U // 4)), ("tick", Y), ("flush", Y, 0), ("deliver", Y, 9), ("deliver", Z, 9)]
+        if rng.random() < 0.6:
+            ev += [("try", Z, l), ("flush", Z, 0), ("deliver", Z, 9), ("deliver", Y, 9)]
+    return {"U": U, "ncl": 3, "nlk": 2, "mode": mode, "events": ev}
+
+
 def snapshot_case(rng, mode):
     """Directed: Y holds L1 and prolongs every < U/2; Z's replica lags and is then brought up by Y's snapshot,
     or Z catches up and restarts from its own dump; Z then tries: refused, Y still holds, never two holders."""
@@ -476,6 +539,9 @@ def explore(ctx, bat, salt, ncases, max_viol=4):
             elif i % 8 == 5:
                 case = stall_case(rng, mode)
                 cov["directed.stall"] = cov.get("directed.stall", 0) + 1
+            elif i % 8 == 3:
+                case = open_case(rng, mode)
+                cov["directed.outcome-open"] = cov.get("directed.outcome-open", 0) + 1
             elif i % 4 == 0:
                 case = stale_case(rng) if mode == "stale" else directed_case(rng, mode)
                 cov["directed." + mode] = cov.get("directed." + mode, 0) + 1
@@ -514,7 +580,8 @@ FLOORS = ["try", "release", "tick.prolong", "tick.skip", "deliver", "partition",
           "pro.stale-while-fresh-lock-of-another-client", "expect.holder-still-holds", "expect.competitor-refused",
           "directed.snapshot", "install.while-another-clients-lock-is-held", "restart.while-another-clients-lock-is-held",
           "directed.stall", "expect.competitor-granted-after-expiry", "expect.stalled-holder-does-not-hold",
-          "pro.expires-lock.of-the-prolonging-holder", "acq.of-free-or-expired-lock"]
+          "pro.expires-lock.of-the-prolonging-holder", "acq.of-free-or-expired-lock",
+          "directed.outcome-open", "try.outcome-open"]
 
 
 def run(ctx):
